@@ -625,10 +625,11 @@ def run_sequence(seq, workdir, timeout):
                     le = (le[0], t_sort_dicts(le[1])) if le[0] == 'returned' else le
                     res['lib_compared'] = res.get('lib_compared', 0) + 1
                     if le != oo:
-                        res['mism'].append((idx, 'request %d %s: the in-process API (supp.%s on an identical Project) gives %s, '
-                                                 'client observed %s' % (idx, c[0], 'linter.lint' if c[0] == 'lint' else
-                                                                        'project.Project' if c[0] == 'configure' else 'fresh-namespace exec' if c[0] == 'eval' else 'assistant.' + c[0],
-                                                                        short(le), short(oo))))
+                        api = {'lint': 'supp.linter.lint on an identical Project', 'configure': 'supp.project.Project(...)',
+                               'eval': 'supp-free: the text run as a function body in a FRESH namespace'}.get(
+                                   c[0], 'supp.assistant.%s on an identical Project' % c[0])
+                        res['mism'].append((idx, 'request %d %s: the in-process API (%s) gives %s, client observed %s'
+                                            % (idx, c[0], api, short(le), short(oo))))
             if res['timed_out']:
                 break
         # ---- liveness at the end ----------------------------------------------------------
@@ -1621,7 +1622,7 @@ def _run(ctx):
             ctx.sample({'tag': seq['tag'], 'requests': [c[0] for c in res['calls']][:14],
                         'observed': [short(o, 60) for o in res['observed']][:14]})
         for idx, what in res['mism'][:3]:
-            if 'the in-process API (supp.' not in what and process_dependent(ctx, seq, idx, res):
+            if 'the in-process API (' not in what and process_dependent(ctx, seq, idx, res):
                 ctx.histogram('process_dependent_answer_not_counted(C17)', res['calls'][idx][0])
                 ctx.notes.append('sequence %d request %d (%s): the in-process answer differs between processes '
                                  '(C17 / F4), not a C15 disagreement' % (i, idx, res['calls'][idx][0]))
